@@ -210,7 +210,7 @@ def null_guards(f, pv):
     return out
 
 
-def r18_2(ctx):
+def r18_2(ctx, rid="R18.2"):
     F = ctx.facts
 
     def body(r):
@@ -270,7 +270,7 @@ def r18_2(ctx):
                                 continue
                             bad.append(cal.key())
                 r.ob("null-guard:param:%s:%s" % (f.name, f.local_name(k) or k), not bad, f.site, "raw pointer parameter is only tested, dereferenced under a guard or passed to null-safe helpers" if not bad else "raw pointer passed unguarded to %s" % bad)
-    ctx.run_rule("R18.2", "null-guard dominance before every raw pointer use", body, floor=40)
+    ctx.run_rule(rid, "null-guard dominance before every raw pointer use", body, floor=40)
 
 
 def r18_3(ctx):
